@@ -546,7 +546,15 @@ def r5_negation_not_dropped(ctx) -> None:
             r.violation("C01.R5", nt.qual, stmt_head(rt), "unrecognised return of convert_condition_not", loc)
     # templates swapped vs templates readable by the leaf handlers
     cm = prog.func(TQ + ".not_equals_context_manager")
-    swapped = sorted({n.attr for n in walk_no_nested(cm.node) if isinstance(n, ast.Attribute) and isinstance(n.ctx, ast.Store) and unparse(n.value) == "self.__class__"})
+    # which templates the manager swaps: interpreted (sa.tabulate, Proxy) with every template of the class set to a marker
+    from .standins import class_swap_outcome
+    swo = class_swap_outcome(ctx, TQ, "not_equals_context_manager")
+    swapped = sorted(swo.at_yield)
+    wrong_pair = [f"{k} ← {v}" for k, v in sorted(swo.at_yield.items()) if v not in (f"orig:not_{k}", "orig:" + k.replace("case_sensitive_", "case_sensitive_not_", 1))]
+    if wrong_pair:
+        r.violation("C01.R5", cm.qual, f"template swapped with another one's negation: {wrong_pair[0]}", "in not-equals mode every template is replaced by its own negated counterpart", cm.loc)
+    elif swapped:
+        r.ok("C01.R5", cm.qual, f"{len(swapped)} templates are replaced by their own negated counterparts while the manager is active (interpreted)", cm.loc)
     leaf_templates = {}
     for q, f in sorted(prog.funcs.items()):
         if q.startswith(TQ + ".convert_condition_field_") and f.name not in ("convert_condition_field_eq_val", "convert_condition_field_eq_expansion"):
